@@ -34,6 +34,17 @@ ParseNumeral(s) ==
 RECURSIVE StripLeadingZeros(_)
 StripLeadingZeros(ds) == IF Len(ds) > 1 /\ Head(ds) = 48 THEN StripLeadingZeros(Tail(ds)) ELSE ds
 
+\* order of magnitude of an accepted numeral: the position of its leading significant digit
+\* (value in [10^(mag-1), 10^mag)); certainly beyond the double range (~1.8e308) when mag > 309
+NumeralTooBig(P) ==
+    LET ds == StripLeadingZeros(P.ip \o P.fp)
+        allZero == \A i \in 1..Len(ds) : ds[i] = 48
+        exd == StripLeadingZeros(P.ex)
+        e0 == IF P.ex = <<>> THEN 0 ELSE IF Len(exd) > 4 THEN 100000 ELSE DigitsVal(exd, 0)
+        ex == IF P.eneg THEN 0 - e0 ELSE e0
+        mag == Len(StripLeadingZeros(P.ip)) + ex     \* for ip = "0" this over-estimates by at most the leading fraction zeros
+    IN  ~allZero /\ StripLeadingZeros(P.ip) # <<48>> /\ mag > 309
+
 \* exact value of an accepted numeral when it fits the model
 NumeralValue(P) ==
     LET ds == StripLeadingZeros(P.ip \o P.fp)
